@@ -85,6 +85,13 @@ def make_case(rng, kind, t, start=None, exhaustive=None):
          "partial": rng.choice([0, 0, 0, 1, 2, 3])}
     if typed:
         c["typed"] = typed
+    if exhaustive is None and rng.random() < 0.15:
+        c["positional"] = True            # options passed by position, in the documented order of the constructor
+    if exhaustive is None and rng.random() < 0.1 and (fo or st) and kind != "rtg":
+        # filter_/stop given as callables whose truth value is False: treated as absent, consistently in every pass
+        c["falsy_cb"] = {"filter_out": fo, "stop": st}
+        c["filter_out"], c["stop"] = [], []
+        c["defaults"] = True
     if exhaustive is None and rng.random() < 0.2:
         # two interleaved iterators of one exporter (the model runs one undisturbed iteration); the first is mostly paused
         # inside or right after its node statements, the second advanced into its own
@@ -95,11 +102,11 @@ def make_case(rng, kind, t, start=None, exhaustive=None):
         c["iterations"] = 1
         c["partial"] = 0
         c["tofile"] = False
-    if c["iterations"] == 2 and rng.random() < 0.5:
+    if c["iterations"] == 2 and "falsy_cb" not in c and rng.random() < 0.5:
         # the exporter's maxlevel attribute is changed between the iterations: the admitted set grows or shrinks,
         # identifiers handed out earlier stay valid and distinct
         c["maxlevel_seq"] = [rng.choice([m, 1, 2, 2, 2, 3]), rng.choice([None, None, None, 1, 3, 5])]
-    elif c["iterations"] == 2 and exhaustive is None and rng.random() < 0.7:
+    elif c["iterations"] == 2 and exhaustive is None and "falsy_cb" not in c and rng.random() < 0.7:
         # between the two iterations of one exporter the tree is renamed and/or the exporter's filter_/stop/maxlevel
         # change (by assignment to the public attributes, or because the predicates read mutable state): every
         # iteration must describe the tree and the settings in force when it runs
